@@ -230,8 +230,19 @@ def F17():
         return True, 'GN step on a model with a frozen parameter raises %s' % type(e).__name__
 
 
+def F18():
+    torch.manual_seed(0)
+    try:
+        a = pp.voxel_filter(torch.rand(5, 3) * 0.1, [1., 1., 1.], random=True)
+        b = pp.voxel_filter(torch.rand(1, 3), [1., 1., 1.], random=True)
+        bad = tuple(a.shape) != (1, 3) or tuple(b.shape) != (1, 3)
+        return bad, 'voxel_filter(random=True): one occupied voxel -> shape %s, one point -> shape %s' % (tuple(a.shape), tuple(b.shape))
+    except Exception as e:
+        return True, 'voxel_filter(random=True) on a degenerate cloud raises %s' % type(e).__name__
+
+
 if __name__ == '__main__':
-    names = sys.argv[1:] or ['F%d' % i for i in range(1, 18)]
+    names = sys.argv[1:] or ['F%d' % i for i in range(1, 19)]
     for n in names:
         try:
             d, msg = globals()[n]()
